@@ -26,7 +26,7 @@ HARMLESS = {'real-nr3-nodot'}
 
 
 def plan(tier, seed):
-    return C.plan_counts(tier, 16 * 900, 16 * 40000)
+    return C.plan_counts(tier, 16 * 5000, 16 * 60000)
 
 
 def modes_for(rng):
@@ -92,7 +92,7 @@ def run_shard(shard, tier, seed):
     res = H.Result(ID)
     rng = C.rng_for(seed, ID, shard['shard'])
     for i in range(shard['n']):
-        T, v = C.gen_case(rng, tier)
+        T, v = C.gen_case(rng, tier, any_maker=R.ber_any_maker)
         try:
             check_case(res, T, v, modes_for(rng))
         except Exception:
